@@ -167,6 +167,13 @@ package parsley
 //@ -- the furthest position of an error that the Parser calls made by the current activation have returned and
 //@ -- that the activation has to keep (-1: none yet); saved and restored around every activation like the window.
 //@ -- GhostBestOut: its value when the last activation returned (for that activation's own postconditions)
+//@ -- GhostActive(i, p): how many activations of the memoized parser with index i at position p are on the call stack
+//@ -- right now (each Memoize closure counts itself in before calling its operand and out afterwards). The Parser
+//@ -- contract carries the invariant that ties it to the left-recursion counters, from which the bound of C02 follows:
+//@ -- active(i, pos) <= lrc[i] at every call, and Memoize calls its operand only while lrc[i] <= Remaining(pos)+1.
+//@ ghostfun GhostActive(i int, p Pos) int
+//@ pure func ActiveOK(lrc data.IntMap, pos Pos) bool = (forall i int :: GhostActive(i, pos) <= data.MapOf(lrc)[i] && data.MapOf(lrc)[i] >= 0) && forall i int, q Pos :: q > pos ==> GhostActive(i, q) == 0
+//@ pure func ActiveKept() bool = forall i int, q Pos :: GhostActive(i, q) == old(GhostActive(i, q))
 //@ ghost GhostBest Pos
 //@ ghost GhostBestOut Pos
 //@ ghost GhostLastCp data.IntSet
@@ -294,6 +301,8 @@ package parsley
 //@ interface parsley.Parser.Parse(p Parser, ctx *Context, lrc data.IntMap, pos Pos) (n Node, cp data.IntSet, err Error)
 //@   requires [ctx] WfCtx(ctx) && WfCache(ctx) && InInput(ctx.reader, pos)
 //@   requires [floor;C02] pos > GhostFloorPos || (pos == GhostFloorPos && forall k int :: data.MapOf(lrc)[k] >= data.MapOf(GhostFloorLrc)[k])
+//@   requires [active;C02] ActiveOK(lrc, pos)
+//@   ensures  [active-kept;C02] ActiveKept()
 //@   ensures  [ctx] WfCtx(ctx)
 //@   ensures  [cache] WfCache(ctx)
 //@   ensures  [PC1;C04] n == nil && err == nil ==> GhostCurtailed
@@ -305,7 +314,7 @@ package parsley
 //@   ensures  [PC6;C06] err != nil ==> err.Pos() <= GhostMaxFail
 //@   ensures  [mono] (old(GhostCurtailed) ==> GhostCurtailed) && GhostMaxFail >= old(GhostMaxFail) && GhostCalls > old(GhostCalls)
 //@   ensures  [floor;C02] GhostFloorPos == old(GhostFloorPos) && same(GhostFloorLrc, old(GhostFloorLrc))
-//@   assigns  ctx.err, ctx.callCount, maps[ResultCache](), maps[map[Pos]*Result](), maps[map[string]*regexp.Regexp](), GhostCurtailed, GhostMaxFail, GhostCalls, GhostFloorPos, GhostFloorLrc, GhostLo, GhostHi, GhostSeqMark, GhostSpare, GhostLastNode, GhostLastCp, GhostCpAcc, GhostBest, GhostBestOut
+//@   assigns  ctx.err, ctx.callCount, maps[ResultCache](), maps[map[Pos]*Result](), maps[map[string]*regexp.Regexp](), GhostCurtailed, GhostMaxFail, GhostCalls, GhostFloorPos, GhostFloorLrc, GhostLo, GhostHi, GhostSeqMark, GhostSpare, GhostLastNode, GhostLastCp, GhostCpAcc, GhostBest, GhostBestOut, GhostActive
 //@   ensures  [window] GhostLo == old(GhostLo) && GhostHi == old(GhostHi) && GhostSeqMark == old(GhostSeqMark) && GhostBest == old(GhostBest)
 //@   ghost_entry GhostLo = pos
 //@   ghost_entry GhostHi = Eof(ctx.reader, pos)
@@ -448,6 +457,7 @@ package parsley
 //@ func Parse(ctx *Context, p Parser) (n Node, err error)
 //@   requires p != nil && WfCtx(ctx) && WfCache(ctx) && ctx.fileSet != nil && wfFS(ctx.fileSet) && sortedOffsets(ctx.fileSet)
 //@   requires ctx.reader.Remaining(ctx.reader.Pos(0)) >= 0
+//@   requires [no-parse-active;C02] forall i int, q Pos :: GhostActive(i, q) == 0
 //@   requires GhostFloorPos < ctx.reader.Pos(0)
 //@   ensures  [one-of;C04] (n == nil) != (err == nil)
 //@   ensures  [valid] n != nil ==> NodeOK(n)
@@ -487,6 +497,7 @@ package parsley
 //@   props C04
 //@   requires p != nil && WfCtx(ctx) && WfCache(ctx) && ctx.fileSet != nil && wfFS(ctx.fileSet) && sortedOffsets(ctx.fileSet)
 //@   requires ctx.reader.Remaining(ctx.reader.Pos(0)) >= 0
+//@   requires [no-parse-active;C02] forall i int, q Pos :: GhostActive(i, q) == 0
 //@   requires GhostFloorPos < ctx.reader.Pos(0)
 //@   ensures  [value-or-error;C04] v == nil || err == nil
 //@   assigns  ctx.err, ctx.callCount, fields[Node](), fields[File](), elems[[]Node](), maps[ResultCache](), maps[map[Pos]*Result](), maps[map[string]*regexp.Regexp](), GhostCurtailed, GhostMaxFail, GhostCalls, GhostFloorPos, GhostFloorLrc, GhostLo, GhostHi
